@@ -20,7 +20,7 @@ func adv(peer, origin int, seq uint64, net string, metric uint16, path ...int) r
 
 // Fixed regression histories, one per rule of the property text.
 func fixed() ([]string, map[string][]rh.Op) {
-	names := []string{"sequence-rule", "self-path", "disconnect-exact", "cleanup-local", "noncanonical-same-slot"}
+	names := []string{"sequence-rule", "self-path", "disconnect-exact", "path-head-not-deliverer", "cleanup-local", "noncanonical-same-slot"}
 	tick := func(ms int64) rh.Op { return rh.Op{Code: rh.OpTick, Ms: ms} }
 	return names, map[string][]rh.Op{
 		"sequence-rule": {
@@ -46,6 +46,23 @@ func fixed() ([]string, map[string][]rh.Op) {
 			{Code: rh.OpAAdv, Peer: 1, Origin: 4, Agent: 4, Seq: 1, Metric: 1, Path: []int{1, 4}},
 			{Code: rh.OpAAdv, Peer: 2, Origin: 4, Agent: 4, Seq: 1, Metric: 1, Path: []int{2, 4}},
 			{Code: rh.OpDisc, Peer: 1}, {Code: rh.OpADisc, Peer: 1}, {Code: rh.OpDisc, Peer: 0}, {Code: rh.OpDDisc, Peer: 1}, {Code: rh.OpFDisc, Peer: 1},
+		},
+		// the head of the decoded path is not the delivering peer (legacy encrypted
+		// path forwarded unchanged / relay that does not prepend itself), or the path
+		// is empty: "learned through peer P" is the delivering peer, in all four tables
+		"path-head-not-deliverer": {
+			adv(1, 4, 1, "10.0.0.0/8", 1, 2, 4), adv(2, 3, 1, "10.0.0.0/8", 1, 3),
+			{Code: rh.OpAdv, Peer: 3, Origin: 2, Seq: 1, Ents: []rh.Ent{{Net: rh.MustNet("10.1.0.0/16"), Metric: 1}}},
+			{Code: rh.OpDAdv, Peer: 1, Origin: 4, Seq: 1, Path: []int{2, 4}, Ents: []rh.Ent{{Name: "a.example.com", Metric: 1}}},
+			{Code: rh.OpDAdv, Peer: 2, Origin: 3, Seq: 1, Path: []int{3}, Ents: []rh.Ent{{Name: "*.example.com", Metric: 1}}},
+			{Code: rh.OpDAdv, Peer: 3, Origin: 2, Seq: 1, Ents: []rh.Ent{{Name: "b.example.com", Metric: 1}}},
+			{Code: rh.OpFAdv, Peer: 1, Origin: 4, Seq: 1, Path: []int{2, 4}, Ents: []rh.Ent{{Name: "web", Target: "h:1", Metric: 1}}},
+			{Code: rh.OpFAdv, Peer: 2, Origin: 3, Seq: 1, Path: []int{3}, Ents: []rh.Ent{{Name: "web", Target: "h:2", Metric: 1}}},
+			{Code: rh.OpAAdv, Peer: 1, Origin: 4, Agent: 4, Seq: 1, Metric: 1, Path: []int{2, 4}},
+			{Code: rh.OpAAdv, Peer: 2, Origin: 4, Agent: 4, Seq: 1, Metric: 1, Path: []int{4}},
+			{Code: rh.OpDisc, Peer: 1}, {Code: rh.OpDDisc, Peer: 1}, {Code: rh.OpFDisc, Peer: 1}, {Code: rh.OpADisc, Peer: 1},
+			{Code: rh.OpDisc, Peer: 3}, {Code: rh.OpDDisc, Peer: 3}, {Code: rh.OpFDisc, Peer: 3}, {Code: rh.OpADisc, Peer: 3},
+			{Code: rh.OpDisc, Peer: 2}, {Code: rh.OpDDisc, Peer: 2}, {Code: rh.OpFDisc, Peer: 2}, {Code: rh.OpADisc, Peer: 2},
 		},
 		"cleanup-local": {
 			{Code: rh.OpAddLocal, Net: rh.MustNet("192.168.0.0/16"), Metric: 0},
@@ -78,8 +95,14 @@ func TestVerif(t *testing.T) {
 	}
 	if c.Replay != "" {
 		var h rh.History
-		if err := c.ReadReplay(&h); err != nil {
-			t.Fatal(err)
+		if err := c.ReadReplay(&h); err != nil || len(h.Ops) == 0 {
+			// a failure of the concurrent phase has no operation history: re-run the phase
+			for _, f := range rh.ConcurrentSameSlot(60, 50000) {
+				c.Fail(f.Sig, f.Detail, "concurrent same-slot phase")
+				fmt.Printf("replay: %s: %s\n", f.Sig, f.Detail)
+			}
+			rh.WriteCases(c, nil)
+			return
 		}
 		o := rh.RunFixed(t, h.Name, h.Profile, h.Pools, h.Ops, mon, 1)
 		add(o)
@@ -102,6 +125,13 @@ func TestVerif(t *testing.T) {
 			}
 			add(rh.RunGenerated(t, fmt.Sprintf("gen-%d", i), g, mon, nm, 1))
 		}
+	}
+	if c.Replay == "" {
+		// concurrent phase (both tiers): same key and origin added from several goroutines at once
+		for _, f := range rh.ConcurrentSameSlot(c.N(30, 120), c.N(20000, 50000)) {
+			c.Fail(f.Sig, f.Detail, "concurrent same-slot phase: 4 goroutines advertise sequences 1..4 of one origin for one key while RemoveRoutesFromPeer scans the table")
+		}
+		c.Count("concurrent-same-slot-phase")
 	}
 	if c.Thorough() && c.Replay == "" {
 		for _, f := range rh.Stress(c.Rand.Fork(), 8, 3000) {
